@@ -121,9 +121,9 @@ add('s_zst', 'zst_op', ['C19'], lambda n, g: 9, pairs=(ZST_PAIRS, []))
 add('s_zst', 'zst_cmp', ['C19'], lambda n: 9, qn=HUGE[:3], tn=HUGE[3:])
 
 # ---------------------------------------------------------------- two buffers (s_two)
-TWO_Q = [(n, g) for n in (1, 2, 3) for g in (0, 1, 2)]
-TWO_T = [(4, g) for g in (0, 1, 2)]
-add('s_two', 'two_buffers', ['C04'], lambda n, g: max(n + 5, 9), pairs=(TWO_Q, TWO_T), stubs=[ROT])
+TWO_Q = [(1, op) for op in range(20)] + [(2, op) for op in range(20) if op != 13]
+TWO_T = [(2, 13)] + [(3, op) for op in range(13)]
+add('s_two', 'two_buffers', ['C04'], lambda n, g: (n + 4 if g not in (13,) else 10), pairs=(TWO_Q, TWO_T), stubs=[ROT])
 
 # ---------------------------------------------------------------- C17: no allocation (allocator entry points stubbed to panic)
 C17_CFG = ['nodefault', 'alloc', 'default']
